@@ -53,6 +53,43 @@ func scteView(s scte35.SCTE35) Val {
 
 func vb(v Val) bool { return v.I.Sign() != 0 }
 
+// malformed requests (answered with the bad-request marker by both executors): a negative integer anywhere in the
+// arguments, and in step 10 of scte.hist the same own descriptor listed twice
+func scteHasNeg(v Val) bool {
+	switch v.K {
+	case 0:
+		return v.I.Sign() < 0
+	case 2:
+		for _, x := range v.L {
+			if scteHasNeg(x) {
+				return true
+			}
+		}
+	}
+	return false
+}
+
+func scteDupSel(s scte35.SCTE35, o Val) bool {
+	if o.K != 2 || len(o.L) != 2 || o.L[0].K != 0 || o.L[0].Int() != 10 || o.L[1].K != 2 {
+		return false
+	}
+	n := len(s.Descriptors())
+	seen := map[int]bool{}
+	for _, e := range o.L[1].L {
+		if e.K != 0 {
+			continue
+		}
+		j := e.Int()
+		if j >= 0 && j < n {
+			if seen[j] {
+				return true
+			}
+			seen[j] = true
+		}
+	}
+	return false
+}
+
 func scteCompOp(c scte35.Component, o Val) {
 	switch o.L[0].Int() {
 	case 0:
@@ -323,6 +360,9 @@ func init() {
 		return VOk(VL(VB(out), scteView(s)))
 	})
 	register("scte.build", func(a []Val) Val {
+		if scteHasNeg(a[0]) || scteHasNeg(a[1]) {
+			return VBad()
+		}
 		var s scte35.SCTE35
 		if len(a[0].L) == 0 {
 			s = scte35.CreateSCTE35()
@@ -352,6 +392,9 @@ func init() {
 	})
 	// scte.hist <start> <ops>: ONE signal, every getter after every step (twice), everything handed out is kept
 	register("scte.hist", func(a []Val) Val {
+		if scteHasNeg(a[0]) || scteHasNeg(a[1]) {
+			return VBad()
+		}
 		var s scte35.SCTE35
 		if len(a[0].L) == 0 {
 			s = scte35.CreateSCTE35()
@@ -369,6 +412,9 @@ func init() {
 		}
 		out := []Val{look("at the start")}
 		for i, o := range a[1].L {
+			if scteDupSel(s, o) {
+				return VBad()
+			}
 			scteSigOp(s, o)
 			out = append(out, look(fmt.Sprintf("after step %d", i)))
 		}
